@@ -51,7 +51,7 @@ pub fn dispatch(rec: &J) -> Outcome {
         return render::run(rec);
     }
     if kind == "mathcase" || kind == "bigcheck" {
-        return Outcome::ok(true); // evaluated by the trace stage (binding B)
+        return Outcome::ok(false); // evaluated, and counted, by the trace stage (binding B)
     }
     match kind {
         "views" => return views::run_views(rec),
